@@ -2,5 +2,6 @@ SPECIFICATION Spec
 CONSTANTS
   StripsLastChar = TRUE
   MaxLines = 2
+  DigitFirstOnly = FALSE
 INVARIANT FileReadOK
 INVARIANT Terminates
